@@ -126,6 +126,38 @@ def run(ctx):
             ctx.cls("unary-before-literal")
             for mode in ("min", "full"):
                 judge(ctx, t, mode, to_text(t, mode), "unary-literal")
+    # trees only SOME spellings produce: fields named exactly like an operator keyword (they
+    # lex as identifiers wherever the keyword's own whitespace is missing) and path segments
+    # written with a namespace (which the parser drops).  Source text -> tree -> trip.
+    kws = ["not", "eq", "ne", "lt", "le", "gt", "ge", "and", "or", "add", "sub", "mul", "div", "mod", "in"]
+    raw = []
+    for kw in kws:
+        raw += ["(%s) eq x" % kw, "x eq (%s)" % kw, "x eq (%s) and y" % kw, "-%s add 1" % kw, "not (%s)" % kw,
+                "(%s) in (1, 2)" % kw, "f.g(%s, 1) eq (%s)" % (kw, kw), "(%s) add (%s) gt 1" % (kw, kw),
+                "%s/a eq 1" % kw, "a/%s eq 1" % kw, "xs/any(y: (%s) eq y)" % kw, "my.f(%s=1)" % kw,
+                "x in ((%s), 1)" % kw, "(%s)" % kw, "ns.%s eq 1" % kw]
+    for seg in ("x.1c", "x.any", "x.all", "ns.b", "x.2", "x.not", "x._"):
+        raw += ["a/%s eq 1" % seg, "a/%s/c eq 1" % seg, "a/b/%s eq 1" % seg, "a/%s/any()" % seg,
+                "a/%s/any(y: y eq 1)" % seg, "xs/any(y: y/%s eq 1)" % seg]
+    for j, text in enumerate(raw):
+        if not ctx.mine(j):
+            continue
+        ctx.count("evaluations")
+        ctx.cls("raw-spelling")
+        prob, detail = trip(text)
+        if prob == "source-rejected":
+            ctx.count("source_rejected")
+            continue
+        ctx.seen(["raw", text])
+        if prob is not None:
+            keys = []
+            o1 = drive.parse_term(text)
+            import re as _re
+            if o1[0] == "ok" and any(n[0] == "attr" and not _re.fullmatch(r"[A-Za-z_]\w*", n[2]) or
+                                     n[0] == "attr" and n[2].lower() in ("any", "all", "not") for n in T.walk(o1[1])):
+                keys.append("path-segment-only-writable-with-its-namespace")
+            ctx.fail({"source": text, "mode": "raw"}, prob, expected="parse(render(t)) == t",
+                     observed=detail, keys=keys, cls="raw-spelling", sig=[prob, sorted(keys), text.split("/")[0][:6] if keys else text])
     rng = ctx.rng("rand")
     o = fullgen.Opts()
     maxd = ctx.pick(7, 10)
